@@ -959,6 +959,9 @@ impl<'a, T: MemoryMapped<'a>> MemoryMapped<'a> for MappedOption<'a, T> {
             data_len: map.as_ref()[offset] as usize,
             _marker: marker::PhantomData,
         };
+        if result.data_len > map.len() - offset - 1 {
+            return Err(Error::new(ErrorKind::UnexpectedEof, "The file is too short"));
+        }
         if result.data_len > 0 {
             let value = T::new(map, offset + 1)?;
             result.data = Some(value)
